@@ -1,0 +1,50 @@
+//go:build verif
+
+// Contracts for the deductive verifier in /verif (govc). Comment-only file,
+// compiled only with -tags verif.
+
+package zoekt
+
+// ---------------------------------------------------------------------------
+// C25: statistics are conserved when results are combined
+// ---------------------------------------------------------------------------
+
+// One postcondition per integer-kinded field of Stats, generated from the
+// struct type on every run: a counter added to Stats without a line in Add
+// fails its generated obligation. Duration is the wall clock of the whole
+// search and is set by the top level (excluded by name); FlushReason is
+// first-non-zero-wins.
+//@ func zoekt.(*Stats).Add
+//@   requires s != nil
+//@   foreach_field Stats except Duration,FlushReason ensures s.$f == old(s.$f) + o.$f
+//@   ensures old(s.FlushReason) != 0 ==> s.FlushReason == old(s.FlushReason)
+//@   ensures old(s.FlushReason) == 0 ==> s.FlushReason == o.FlushReason
+//@   ensures s.Duration == old(s.Duration)
+//@   assigns deref(s)
+
+//@ func zoekt.(*Stats).Zero
+//@   ensures s == nil ==> result
+//@   foreach_field Stats except Duration,FlushReason ensures (s != nil && s.$f > 0) ==> !result
+//@   ensures s != nil && !result ==> (s.ContentBytesLoaded > 0 || s.IndexBytesLoaded > 0 || s.Crashes > 0 || s.FileCount > 0 || s.FilesConsidered > 0 || s.FilesLoaded > 0 || s.FilesSkipped > 0 || s.MatchCount > 0 || s.NgramMatches > 0 || s.NgramLookups > 0 || s.ShardFilesConsidered > 0 || s.ShardsScanned > 0 || s.ShardsSkipped > 0 || s.ShardsSkippedFilter > 0 || s.Wait > 0 || s.MatchTreeConstruction > 0 || s.MatchTreeSearch > 0 || s.RegexpsConsidered > 0)
+//@   assigns nothing
+
+// RepoStats.Add: Repos is deliberately not summed (one repository may have
+// several shards; documented in the code).
+//@ func zoekt.(*RepoStats).Add
+//@   requires s != nil && o != nil
+//@   foreach_field RepoStats except Repos ensures s.$f == $wrap(old(s.$f) + old(o.$f))
+//@   ensures s.Repos == old(s.Repos)
+//@   assigns deref(s)
+
+// Ghost accounting of what has been handed to a downstream Sender: the
+// field-wise sum of the Stats and the number of files of every event passed to
+// Send. The contract below is ASSUMED of every implementation of Sender that a
+// verified function calls (they are not visible at the call site); senders in
+// this repository that forward events are themselves verified against it.
+//@ ghost var sentStats Stats
+//@ ghost var sentFiles int
+//@ func zoekt.Sender.Send(event)
+//@   requires event != nil
+//@   foreach_field Stats except Duration,FlushReason ensures sentStats.$f == old(sentStats.$f) + old(event.Stats.$f)
+//@   ensures sentFiles == old(sentFiles) + old(len(event.Files))
+//@   assigns sentStats, sentFiles
